@@ -450,6 +450,12 @@ func (c15) Eval(c *Chooser, env *Env) *Outcome {
 			expected = append(expected, d)
 		}
 	}
+	// a last file argument that does not exist: the run is a fatal error whatever the other files
+	// and the patterns leave over ("3 for fatal errors")
+	missingArg := mode == 0 && c.Weighted("world.missingarg", 1, 10)
+	if missingArg {
+		w.Args = append(append([]string{}, w.Args...), root+"/.github/workflows/no-such-file.yml")
+	}
 	// in a multi-file run diagnostics are grouped per file in argument order, which is the order of U as well
 	rf := RunLint(w, c, RunOpts{KeepTrace: env.KeepTrace})
 	o.addRun(rf.K)
@@ -471,6 +477,14 @@ func (c15) Eval(c *Chooser, env *Env) *Outcome {
 	o.Digest = DigestOf(rf.Stdout, rf.Exit)
 	if v := runFailure("C15", rf.K); v != nil {
 		o.V = v
+		return o
+	}
+	if missingArg {
+		o.probe("missing_file_argument_runs", 1)
+		if rf.Exit != 3 || strings.TrimSpace(rf.Stderr) == "" {
+			o.V = &Violation{Oracle: "exit-status", Class: fmt.Sprintf("fatal-error-exit-%d", rf.Exit),
+				Message: fmt.Sprintf("the last file argument does not exist, which is a fatal error, but the exit status is %d (stderr %q); %d diagnostics of the other files remain after filtering", rf.Exit, firstLine(rf.Stderr), len(expected))}
+		}
 		return o
 	}
 	if mode == 5 {
